@@ -80,22 +80,24 @@ func matchKnown(ks []knownFinding, prop string, v *explore.Violation) *knownFind
 }
 
 type cfgRow struct {
-	Config       json.RawMessage `json:"config"`
-	States       int             `json:"states"`
-	Transitions  int             `json:"transitions"`
-	Executions   int             `json:"executions"`
-	Outcomes     map[string]int  `json:"outcomes"`
-	Observations int             `json:"distinct_observations"`
-	Exhaustive   bool            `json:"exhaustive"`
-	Bound        int             `json:"preemption_bound"`
-	BudgetHit    bool            `json:"budget_hit,omitempty"`
-	MaxDepth     int             `json:"max_depth"`
-	SCCs         int             `json:"sccs,omitempty"`
-	BottomSCCs   int             `json:"bottom_cycles,omitempty"`
-	Counters     map[string]int  `json:"counters,omitempty"`
-	WallS        float64         `json:"wall_s"`
-	Verdict      string          `json:"verdict"`
-	Suspects     []string        `json:"suspected_merge_artefacts,omitempty"`
+	Config         json.RawMessage `json:"config"`
+	States         int             `json:"states"`
+	Transitions    int             `json:"transitions"`
+	Executions     int             `json:"executions"`
+	Outcomes       map[string]int  `json:"outcomes"`
+	Observations   int             `json:"distinct_observations"`
+	Exhaustive     bool            `json:"exhaustive"`
+	Bound          int             `json:"preemption_bound"`
+	CompletedBound int             `json:"completed_preemption_bound"`
+	BoundRuns      []string        `json:"bounded_runs,omitempty"`
+	BudgetHit      bool            `json:"budget_hit,omitempty"`
+	MaxDepth       int             `json:"max_depth"`
+	SCCs           int             `json:"sccs,omitempty"`
+	BottomSCCs     int             `json:"bottom_cycles,omitempty"`
+	Counters       map[string]int  `json:"counters,omitempty"`
+	WallS          float64         `json:"wall_s"`
+	Verdict        string          `json:"verdict"`
+	Suspects       []string        `json:"suspected_merge_artefacts,omitempty"`
 }
 
 func seed() int {
@@ -162,7 +164,7 @@ func check(prop, tier string) int {
 	for _, r := range results {
 		res := r.res
 		row := cfgRow{Config: json.RawMessage(r.cfg.String()), States: res.States, Transitions: res.Transitions, Executions: res.Executions,
-			Outcomes: res.Outcomes, Observations: res.Observations, Exhaustive: res.Exhaustive, Bound: res.Bound, BudgetHit: res.BudgetHit,
+			Outcomes: res.Outcomes, Observations: res.Observations, Exhaustive: res.Exhaustive, Bound: res.Bound, CompletedBound: res.CompletedBound, BoundRuns: res.BoundRuns, BudgetHit: res.BudgetHit,
 			MaxDepth: res.MaxDepth, SCCs: res.SCCs, BottomSCCs: res.BottomSCCs, Counters: res.Counters, WallS: res.WallS, Verdict: "held", Suspects: res.Suspects}
 		tot.states += res.States
 		tot.trans += res.Transitions
